@@ -1,30 +1,16 @@
-"""Per-property configuration for check.py."""
+"""Per-property configuration for check.py: one file per property under props.d/."""
+import importlib.util, os
 
-BASE_TB = [
-    "Lean 4.33.0 kernel + elaborator (lake build); thorough tier: leanchecker re-check",
-    "axioms allowed: propext, Classical.choice, Quot.sound (audited per theorem on every run)",
-    "hand-written Lean model; tied to /repo by differential replay (Go harness rebuilt from the working tree on every run)",
-    "harness/, check.py, the Lean driver (Main.lean) and its string parsing/printing",
-]
+_D = os.path.join(os.path.dirname(os.path.abspath(__file__)), "props.d")
+PROPS = {}
+for _f in sorted(os.listdir(_D)):
+    if _f.endswith(".py"):
+        _spec = importlib.util.spec_from_file_location("props_d_" + _f[:-3], os.path.join(_D, _f))
+        _m = importlib.util.module_from_spec(_spec)
+        _spec.loader.exec_module(_m)
+        PROPS[_f[:-3]] = _m.PROP
 
-PROPS = {
-    "C06": {
-        "modules": ["YorkieModel.Props.C06"],
-        "engines": [
-            {"name": "time", "quick": {"n": 4000, "workers": 8}, "thorough": {"n": 400000, "workers": 14}},
-        ],
-        "trusted_base": BASE_TB + [
-            "int64 lamport / uint32 clientSeq modelled as unbounded Int/Nat (no property is about their wrap-around)",
-            "ActorID modelled as the big-endian Nat of its 12 bytes; Go map as association list",
-        ],
-        "level_text": "Theorems in Lean over every client trace (unbounded): clock invariant, causality of every emitted change, strict growth and uniqueness of (lamport, actor), MinVersionVector never exceeds any participating row; tied to pkg/document/time and pkg/document/change by per-call differential replay.",
-        "level_note": "Trusted: Lean kernel; the hand-written Model/Time.lean agrees with the Go code only as far as the `time` engine's generated call sequences exercise it; integers unbounded in the model.",
-        "technique": "Lean 4 proof (induction over client traces) + differential replay of time/change packages",
-        "partial": [],
-        "not_modelled": ["pre-attach edits (SetActor rewrites only the actor of the ID): generator class not yet in the trace stream"],
-        "assumptions": ["client applies changes through ID.Next/SyncClocks/SetClocks exactly as Model/Time.lean (checked by the `time` engine per call)"],
-    },
-}
-
+# properties that are deliberately not claimed, with the reason (kept current)
 NOT_APPLICABLE = {}
+# /repo commits that add build-tag-guarded hooks
 HOOK_COMMITS = []
